@@ -77,7 +77,8 @@ ObsNext(st, e) ==
     [] e.ev = "LowerSubmit" -> [st EXCEPT !.nlow = Bump(@, e.f)]
     [] e.ev = "ExecCreated" -> [st EXCEPT !.execs = @ \cup {<<Key(e.k, e.c), e.b>>}]
     [] e.ev = "ExecShutdownCall" -> [st EXCEPT !.shc = @ \cup {<<Key(e.k, e.c), e.b>>}]
-    [] e.ev = "ExecShutdownRet" -> [st EXCEPT !.shr = @ \cup {<<Key(e.k, e.c), e.b>>}]
+    \* (a shutdown() that raised - called from one of the executor's own threads, which cannot join itself - has ended too)
+    [] e.ev \in {"ExecShutdownRet", "ExecShutdownRaise"} -> [st EXCEPT !.shr = @ \cup {<<Key(e.k, e.c), e.b>>}]
     [] e.ev = "FnCall" /\ e.s = "poll" ->
           [st EXCEPT !.polls = Bump(@, e.c), !.pollerr = IF e.a = 1 THEN Bump(@, e.c) ELSE @]
     [] e.ev = "CancelArrived" ->
